@@ -209,7 +209,7 @@ theorem alloc_main (p : Inp) (hp : Dom p) (c : Coder)
   have halign : (distribute p s st.2.2.1).map (·.1) ++ s.skipped.map (·.1) = bands p := by
     rw [d1, hskipfst]
     simp only [List.map_nil, List.append_nil]
-    rw [← List.map_append, ← List.reverse_append, ← hsplit, ← List.map_reverse]
+    rw [← List.map_append, ← List.reverse_append, ← hsplit]
     have := l0_fst p
     rw [← bands_reverse] at this
     rw [List.map_reverse, this, List.reverse_reverse]
@@ -224,5 +224,22 @@ theorem alloc_main (p : Inp) (hp : Dom p) (c : Coder)
     exact AllOkB_append p _ _ _ _ (AllOkB_of_AllOk p _ _ k1) q1
   · rw [sumOut_append, q2, opsCost_reverse]
     omega
+
+end OpusProofs.CeltAlloc
+
+namespace OpusProofs.CeltAlloc
+open Opus Opus.CeltAlloc
+open Opus.Gen.CeltTables
+
+theorem initCaps_bounds_small : ∀ LM, LM < 4 → ∀ C, C < 3 → ∀ j, j < 22 →
+    0 ≤ (initCaps LM C).getD j 0 ∧ (initCaps LM C).getD j 0 ≤ 16777216 := by decide +kernel
+
+/-- `init_caps` produces caps inside the domain of the allocation theorems, for every LM and channel count. -/
+theorem initCaps_bounds (LM C : Nat) (hLM : LM ≤ 3) (hC : C = 1 ∨ C = 2) (j : Nat) :
+    0 ≤ (initCaps LM C).getD j 0 ∧ (initCaps LM C).getD j 0 ≤ 16777216 := by
+  by_cases hj : j < 22
+  · exact initCaps_bounds_small LM (by omega) C (by omega) j hj
+  · have hl : (initCaps LM C).length = 21 := by simp [initCaps]; rfl
+    simp [List.getD, List.getElem?_eq_none (by omega : (initCaps LM C).length ≤ j)]
 
 end OpusProofs.CeltAlloc
